@@ -238,7 +238,7 @@ func judge(cfg Config, s *Sched, x *Exec, res *Result, seenSig map[string]bool, 
 	}
 	fails = append(fails, x.fails...)
 	for _, f := range fails {
-		sig := cfg.Name + "/" + f.Sig
+		sig := cfg.Name + "::" + f.Sig
 		if seenSig[sig] {
 			for i := range res.Violations {
 				if res.Violations[i].Sig == sig {
